@@ -1,7 +1,7 @@
 #!/bin/bash
 # Run once after a fresh restore, offline: build the native replay runner (dev + release) and the MIR front end cache,
 # then run the translator validation (mirsym concrete mode vs native crate on the repo's own test expressions).
-set -e
+set -e -o pipefail
 cd "$(dirname "$0")"
 export CARGO_NET_OFFLINE=true
 mkdir -p .work evidence replays
@@ -15,3 +15,4 @@ replay.build('dev'); replay.build('release')
 print('front end + runner built')
 PY
 python3-vt mirsym/validate.py | tail -3
+python3-vt mirsym/validate_models.py | tail -5
